@@ -272,7 +272,7 @@ def check(tier: str) -> Report:
         "states": sum(v["_states"] for v in verdicts[:1]) or 1, "transitions": total,
         "schedules_executed": total, "distinct_histories_judged_by_tlc": len(histories),
         "traces_validated_against_impl": total, "preemption_bound": bound,
-        "programs": per_program, "exhaustive": all(p["schedules"] < cap for p in per_program.values()),
+        "programs": len(per_program), "per_program": per_program, "exhaustive": all(p["schedules"] < cap for p in per_program.values()),
         "canary": "double admission rejected by LinCheck",
         "samples": [{k: histories[i][k] for k in ("program", "threads", "final", "count")}
                     for i in (0, len(histories) // 2)],
